@@ -541,7 +541,7 @@ def execute(case):
         is_sse = spec is not None and spec['kind'] == 'sse'
         try:
             res = A.call(app, A.build_scope(method=case['method'], raw_path='/r'), fail_send_at=fail_at,
-                         disconnect_when_drained=(not is_sse) or bool(case.get('disconnect')))
+                         disconnect_when_drained=(not is_sse) or bool(case.get('disconnect')), fail_kind=case.get('fail_kind'))
         finally:
             _settle_loop()
     else:
@@ -577,7 +577,7 @@ def check_case(case):
         if raise_at is not None:
             allowed += (StreamError,)
         if fail_at is not None and asyn:
-            allowed += (A.SendError,)
+            allowed += (A.SendError,) if case.get('fail_kind') != 'cancel' else (asyncio.CancelledError,)
         if not isinstance(err, allowed):
             _fail('unexpected_exception', case, '%s: %s escaped from the app (not an injected fault)'
                   % (type(err).__name__, err))
@@ -913,6 +913,9 @@ def fault_cases(tier):
                             yield dict(base, proxy=True, fail_at=1)
                     for k in range(n + 3):
                         yield dict(base, fail_at=k)
+                        if stack == 'asgi' and kind != 'sse':
+                            # the server cancels the app's task while it awaits send() (client went away)
+                            yield dict(base, fail_at=k, fail_kind='cancel')
                         if kind == 'sse':
                             yield dict(base, fail_at=k, disconnect=True)
                     if kind == 'sse':
